@@ -310,20 +310,30 @@ def _ladder_ok(errs, p, key, what, floor=FLOOR):
         m += 1
     if m == 0 or errs[0] <= floor:
         return 0, None
-    slope = math.log2(errs[0] / errs[m]) / m
+    pairs = [math.log2(errs[i] / errs[i + 1]) for i in range(m)]
+    tail = sorted(pairs[-3:])          # the coarsest rungs may be pre-asymptotic: judge on the finest informative halvings
+    slope = tail[len(tail) // 2]
     if slope < p - 0.75:
         return m, violation(key, "%s: error ladder %s converges with exponent %.2f < declared order %d" % (
             what, ["%.2e" % e for e in errs], slope, p), errs, p)
-    for a, b in zip(errs[:m], errs[1:m + 1]):
-        if math.log2(a / b) < p - 2.5:
-            return m, violation(key, "%s: error ladder %s has a halving that gains only 2^%.2f (declared order %d)" % (
-                what, ["%.2e" % e for e in errs], math.log2(a / b), p), errs, p)
+    if m >= 3 and min(pairs[-2:]) < p - 2.5:
+        return m, violation(key, "%s: error ladder %s has a halving that gains only 2^%.2f (declared order %d)" % (
+            what, ["%.2e" % e for e in errs], min(pairs[-2:]), p), errs, p)
     return m, None
+
+
+def _tgrid(span, nst, kind):
+    """uniform grid, or a smoothly graded one (step ratio ~3 between its ends) whose refinements keep their shape, so the order is unchanged"""
+    u = np.linspace(0.0, 1.0, nst + 1)
+    if kind == "graded":
+        u = u + 0.3 * u * (1.0 - u) * (1.0 - 2.0 * u) + 0.25 * u * (1.0 - u)
+    return span * u
 
 
 def k_fixed_ladder(params):
     rk = _L["rk"]
     name, order = params["problem"], params["order"]
+    gkind = params.get("grid", "uniform")
     f, dim, span = PROBLEMS[name]
     sysm = _system(name)
     integ = rk.RungeKutta(order=order)
@@ -335,7 +345,7 @@ def k_fixed_ladder(params):
         errs = []
         for kk in range(params["rungs"]):
             nst = BASE_N[order] * 2 ** kk
-            t = np.linspace(0.0, span, nst + 1)
+            t = _tgrid(span, nst, gkind)
             sol = integ.integrate(sysm, y0, t)
             n += 1
             ex = _exact(name, y0, span)
@@ -349,7 +359,7 @@ def k_fixed_ladder(params):
                 em = float(np.max(np.abs(sol.states[mid] - exm)))
                 if em > 10 * max(errs[0], 1e-12):
                     viol.append(violation("fixed/interior", "RK%d interior sample error %.2e much larger than end error %.2e" % (order, em, errs[0])))
-        useful, v = _ladder_ok(errs, order, "fixed_ladder/order%d/%s" % (order, name), "RungeKutta(order=%d) on %s, y0=%s" % (order, name, y0.tolist()))
+        useful, v = _ladder_ok(errs, order, "fixed_ladder/order%d/%s%s" % (order, name, "" if gkind == "uniform" else "/graded"), "RungeKutta(order=%d) on %s (%s grid), y0=%s" % (order, name, gkind, y0.tolist()))
         useful_total += useful
         if v:
             viol.append(v)
@@ -421,12 +431,13 @@ def k_ham_ladder(params):
     tf = params["tf"]
     integ = rk.RungeKutta(order=order)
     sols = []
+    gkind = params.get("grid", "uniform")
     for kk in range(params["rungs"]):
         nst = BASE_N[order] * 2 ** kk
-        sols.append(integ.integrate(hs, y0, np.linspace(0, tf, nst + 1)).states[-1])
+        sols.append(integ.integrate(hs, y0, _tgrid(tf, nst, gkind)).states[-1])
     diffs = [float(np.max(np.abs(a - b))) for a, b in zip(sols, sols[1:])]
     viol = []
-    useful, v = _ladder_ok(diffs, order, "ham_ladder/order%d" % order, "RungeKutta(order=%d) on polynomial Hamiltonian %s" % (order, params["ham"]))
+    useful, v = _ladder_ok(diffs, order, "ham_ladder/order%d%s" % (order, "" if gkind == "uniform" else "/graded"), "RungeKutta(order=%d) on polynomial Hamiltonian %s (%s grid)" % (order, params["ham"], gkind))
     if v:
         viol.append(v)
     ref = solve_ivp(fpy, (0, tf), y0, method="DOP853", rtol=1e-13, atol=1e-14).y[:, -1]
@@ -533,7 +544,35 @@ def k_dense_order(params):
     return res(evals=4, nontrivial=useful, viol=[v] if v else [], sample={"problem": name, "order": order, "dense_error_ladder": errs})
 
 
-KINDS = {"trees": k_trees, "trees_embedded": k_trees_embedded, "step": k_step, "fixed_ladder": k_fixed_ladder, "propagate_ladder": k_propagate_ladder,
+def k_adaptive_mixed(params):
+    """rtol != atol and solution magnitudes far from 1: the error must follow atol + rtol*|y| (and not the swapped combination)"""
+    rk = _L["rk"]
+    order = params["order"]
+    sysm = _system("rot")
+    viol = []
+    n = 0
+    useful = 0
+    span = 2.0
+    t = _grids(span, "seven")
+    rows = []
+    for mag in (1e-5, 1.0, 1e4):
+        for rtol, atol in ((1e-6, 1e-14), (1e-10, 1e-3), (1e-9, 1e-9)):
+            y0 = np.array([0.8, -0.3]) * mag
+            ref = np.array([_exact("rot", y0, tt) for tt in t])
+            sol = rk.AdaptiveRK(order=order, rtol=rtol, atol=atol).integrate(sysm, y0, t)
+            n += 1
+            e = float(np.max(np.abs(sol.states - ref)))
+            scale = atol + rtol * float(np.max(np.abs(ref)))
+            rows.append([mag, rtol, atol, e, scale])
+            if e > 10 * scale:
+                useful += 1
+            if e > 20.0 * scale + 1e-13 * mag:   # observed <= 0.8*scale on a short span of a linear rotation
+                viol.append(violation("adaptive/mixed_tolerances/order%d" % order, "AdaptiveRK(order=%d, rtol=%g, atol=%g) on a solution of magnitude %g: max error %.3e > 20*(atol + rtol*|y|) = %.3e" % (
+                    order, rtol, atol, mag, e, 20.0 * scale), e, 20.0 * scale))
+    return res(evals=n, nontrivial=n, viol=viol[:3], sample={"order": order, "rows(mag,rtol,atol,err,scale)": rows[:4]})
+
+
+KINDS = {"adaptive_mixed": k_adaptive_mixed, "trees": k_trees, "trees_embedded": k_trees_embedded, "step": k_step, "fixed_ladder": k_fixed_ladder, "propagate_ladder": k_propagate_ladder,
          "ham_ladder": k_ham_ladder, "adaptive": k_adaptive, "dense_order": k_dense_order}
 
 
@@ -552,6 +591,11 @@ def cases(tier, seed):
     for name in PROBLEMS:
         for order in (4, 6, 8):
             out.append(("fixed_ladder", {"problem": name, "order": order, "rungs": rungs, "seed": seed}))
+    for order in (4, 6, 8):
+        out.append(("fixed_ladder", {"problem": "nonauto", "order": order, "rungs": rungs, "seed": seed, "grid": "graded"}))
+        out.append(("ham_ladder", {"ham": "cubic_mixed", "order": order, "y0": [0.2, -0.3, 0.25 + o[3], 0.1, 0.3, -0.2], "tf": 2.0, "rungs": rungs + 1, "grid": "graded"}))
+    for order in (5, 8):
+        out.append(("adaptive_mixed", {"order": order}))
     for order in (4, 6, 8):
         out.append(("propagate_ladder", {"mu": 0.01215, "order": order, "y0": [0.82 + 0.01 * o[2], 0.02, 0.05, 0.03, 0.15, -0.02], "tf": 1.5,
                                          "base": {4: 48, 6: 12, 8: 4}[order], "rungs": rungs + 1}))
